@@ -66,6 +66,7 @@ class FunctionReport:
         self.canaries = 0
         self.canaries_refuted = 0
         self.unknown_branches = 0
+        self.covers = {}
 
     @property
     def proved(self):
@@ -253,6 +254,13 @@ class Explorer:
                 report.solver_seconds += dt
                 res = ObResult(ob.name, st, be, dt, model, ob.info, ob.kind,
                                smt2=smt2)
+            if ob.kind == 'cover':
+                # reachability check: must be refuted (reached with a
+                # satisfiable path condition) on at least one path
+                report.covers.setdefault(ob.name, 0)
+                if res.status == 'refuted':
+                    report.covers[ob.name] += 1
+                continue
             if ob.kind == 'canary':
                 report.canaries += 1
                 if res.status == 'refuted':
